@@ -488,6 +488,43 @@ class NAHooks(Hooks):
                     raise _np_err(e)
                 return NA(res, v.dt)
             return shp
+        if name in ('ravel_multi_index', 'unravel_index'):
+            def idxfn(a, b=None, **k):
+                def ints(v):
+                    if isinstance(v, (list, tuple)):
+                        return type(v)(ints(x) for x in v)
+                    if isinstance(v, NA):
+                        return _np.array([_const(x) for x in v.a.ravel()],
+                                         dtype=int).reshape(v.a.shape)
+                    return _const(v)
+                kw = {kk: ints(vv) if kk in ('dims', 'shape') else vv
+                      for kk, vv in k.items()}
+                args = [ints(a)] + ([ints(b)] if b is not None else [])
+                try:
+                    res = getattr(_np, name)(*args, **kw)
+                except (ValueError, IndexError) as e:
+                    raise _np_err(e)
+
+                def back(r):
+                    if isinstance(r, tuple):
+                        return tuple(back(x) for x in r)
+                    if isinstance(r, _np.ndarray):
+                        return NA(objarr(r.tolist()), DT('int64'))
+                    return int(r)
+                return back(res)
+            return idxfn
+        if name == 'bincount':
+            def bincount(idx, weights=None, minlength=0):
+                ii = [_const(x) for x in na_of(idx).a.ravel()]
+                n = max([minlength] + [i + 1 for i in ii])
+                ws = None if weights is None else list(
+                    na_of(weights).a.ravel())
+                out = [0] * n if ws is None else [Rat.const(0)] * n
+                for k, i in enumerate(ii):
+                    out[i] = out[i] + (1 if ws is None else to_rat(ws[k]))
+                return NA(objarr(out), DT('int64') if ws is None else (
+                    na_of(weights).dt))
+            return bincount
         if name in ('argmax', 'argmin'):
             def arg(v, axis=None, **k):
                 v = na_of(v)
